@@ -39,6 +39,9 @@ class StmtMixin:
                         self.lambda_vars[c['id']] = self.skip(ini[-1]); self.rules['local-lambda-variable'] += 1
                         continue
                     self.vardecl(c, out, ind)
+                elif c.get('kind') == 'DecompositionDecl':
+                    import cxx2c_idioms
+                    cxx2c_idioms.decomposition(self, c, out, ind)
                 elif c.get('kind') in ('TypeAliasDecl', 'TypedefDecl', 'StaticAssertDecl', 'UsingDecl'): pass
                 else: raise Unsupported('declaration %s at %s' % (c.get('kind'), self.where(n)))
         elif k == 'ReturnStmt':
